@@ -3,6 +3,9 @@
 package peer
 
 import (
+	"net/netip"
+
+	"github.com/jech/storrent/config"
 	"github.com/jech/storrent/hash"
 	"github.com/jech/storrent/protocol"
 	"github.com/jech/storrent/tor/piece"
@@ -204,4 +207,50 @@ func H_C17_peer_exit() {
 	_ = err
 	vAssert(conn.closed, "the exit path closes the connection")
 	vAssert(numUnchoking == 0, "a peer that has exited is not counted as unchoked")
+}
+
+// H_C18_run_prefix_proxied: the greeting of peer.Run (entry to return, torrent already gone) for
+// a PROXIED torrent, peer address IPv4 or IPv6, DHT and extension capabilities on: no Port
+// message; the extended handshake carries no version, no port and no IPv6 address; the local
+// IPv6 address is not even looked up (getIPv6 dials out).
+func H_C18_run_prefix_proxied() {
+	pcs := &piece.Pieces{}
+	pcs.MetadataComplete(16384, 4*16384)
+	conn := &vFakeConn{}
+	tev := make(chan TorEvent, 64)
+	done := make(chan struct{})
+	close(done)
+	config.ProtocolPort = 23222
+	config.SetExternalIPv4Port(23223, true)
+	config.SetExternalIPv4Port(23224, false)
+	ip := netip.AddrFrom4([4]byte{192, 0, 2, 1})
+	if vBool("v6") {
+		ip = netip.AddrFrom16([16]byte{0x20, 1, 0xd, 0xb8, 0, 0, 0, 0, 0, 0, 0, 0, 0, 0, 0, 1})
+	}
+	p := &Peer{conn: conn, Pieces: pcs, canFast: vBool("fast"), canDHT: true, canExtended: true, IP: ip, Event: make(chan PeerEvent, 4), Done: make(chan struct{})}
+	proxied := vBool("proxied")
+	if proxied {
+		p.proxy = "socks5://127.0.0.1:9050"
+	}
+	Run(p, tev, done, []byte{1}, nil, nil)
+	vReach("ran")
+	nport, next := 0, 0
+	for m := range p.writer {
+		switch mm := m.(type) {
+		case protocol.Port:
+			nport++
+		case protocol.Extended0:
+			next++
+			if proxied {
+				vReach("proxied-greeting")
+				vAssert(mm.Version == "" && mm.Port == 0 && !mm.IPv6.IsValid(), "a proxied torrent reveals neither client version, nor port, nor IPv6 address to peers")
+			} else {
+				vReach("plain-greeting")
+				vAssert(mm.Version != "" && mm.Port != 0, "an unproxied torrent announces version and port")
+			}
+		}
+	}
+	vAssert(next == 1, "one extended handshake")
+	vAssert(vImp(proxied, nport == 0), "a proxied torrent sends no DHT port message")
+	vAssert(vImp(proxied, vEffect("cut:getIPv6") == 0), "a proxied torrent does not look up the local IPv6 address")
 }
